@@ -287,6 +287,39 @@ Theorem C09_basic_path_unescape_refuted :
 Proof. exact basic_path_unescape_refuted. Qed.
 Print Assumptions C09_basic_path_unescape_refuted.
 
+(* layer (g): op.RegisterServer over a Server that embeds op.UnimplementedServer and implements an arbitrary SUBSET of the
+   interface (u_set); the implemented methods answer as the embedded implementation does (ground truth in the input: the
+   trace of its calls on this request and its answer) *)
+Theorem C09_partial_server_total :
+  forall u : ushape, exists st c t, web_server u = UAns st c t.
+Proof. exact web_server_total. Qed.
+Print Assumptions C09_partial_server_total.
+
+(* the first method the request reaches outside S answers UnimplementedServer's error - 404 server_error, or 400
+   unsupported_grant_type / request_not_supported - and nothing else: no success, no token *)
+Theorem C09_partial_server_unimplemented :
+  forall (u : ushape) (m : smethod),
+    walk (u_set u) (calls (u_route u)) (u_trace u) = Some m ->
+    web_server u = unimpl_answer m (u_request_param u) /\ in_set (u_set u) m = false /\ In m (calls (u_route u)) /\
+    success (web_server u) = false /\ has_token (web_server u) = false.
+Proof. exact web_server_unimplemented. Qed.
+Print Assumptions C09_partial_server_unimplemented.
+
+(* for ALL subsets S and all requests: a route one of whose methods is outside S never answers below 400 and never
+   hands out a token (whether or not the request gets as far as that method) *)
+Theorem C09_partial_server_outside_never_succeeds :
+  forall u : ushape, ushape_wf u = true ->
+    (exists m, In m (calls (u_route u)) /\ in_set (u_set u) m = false) ->
+    success (web_server u) = false /\ has_token (web_server u) = false.
+Proof. exact web_server_outside_never_succeeds. Qed.
+Print Assumptions C09_partial_server_outside_never_succeeds.
+
+(* a route all of whose methods are in S answers exactly as the embedded implementation (LegacyServer in the correspondence run) *)
+Theorem C09_partial_server_inside_as_embedded :
+  forall u : ushape, (forall m, In m (calls (u_route u)) -> in_set (u_set u) m = true) -> web_server u = u_full u.
+Proof. exact web_server_inside. Qed.
+Print Assumptions C09_partial_server_inside_as_embedded.
+
 (* the property predicate holds on the model's answer to every input *)
 Theorem C09_spec_model : forall i : input, spec i (model i) = true.
 Proof. exact spec_model. Qed.
